@@ -16,11 +16,11 @@ Proof.
     rewrite ?len_cons; cbn [sum fold_right]; unfold sum in *; repeat split; lia.
 Qed.
 
-Lemma filter_fit_agrees L cands : forall c r, agrees c r ->
-  agrees (fst (filter_fit L cands c r)) (snd (filter_fit L cands c r)).
+Lemma filter_fit_agrees cf L cands : forall c r, agrees c r ->
+  agrees (fst (filter_fit_with cf L cands c r)) (snd (filter_fit_with cf L cands c r)).
 Proof.
-  induction cands as [|[[k size] valid] rest IH]; intros c r A; cbn [filter_fit]; [exact A|].
-  destruct (can_fit L c k size && valid); [apply IH, agrees_step, A | apply IH, A].
+  induction cands as [|[[k size] valid] rest IH]; intros c r A; cbn [filter_fit_with]; [exact A|].
+  destruct (cf L c k size && valid); [apply IH, agrees_step, A | apply IH, A].
 Qed.
 
 Lemma popsize_estimate c r : agrees c r -> popsize c = est_kept r.
@@ -28,73 +28,79 @@ Proof.
   intros (A & B & C & D & E & F). unfold popsize, est_kept, estimate. rewrite A, B, C, D, E, F. lia.
 Qed.
 
-(** the running figure of CountingContext is the estimateSize of what has been kept so far *)
+Lemma agrees0 : agrees c0 (mkk [] [] []).
+Proof. unfold agrees. cbn. repeat split; reflexivity. Qed.
+
+(** the running figure of CountingContext is the estimateSize of what has been kept so far (for either canFit) *)
 Lemma counting_exact_lemma L cands :
   let '(c, r) := filter_fit L cands c0 (mkk [] [] []) in popsize c = est_kept r.
 Proof.
-  pose proof (filter_fit_agrees L cands c0 (mkk [] [] [])) as H.
-  destruct (filter_fit L cands c0 (mkk [] [] [])) as [c r]. cbn [fst snd] in H.
-  apply popsize_estimate, H. unfold agrees. cbn. repeat split; reflexivity.
+  pose proof (filter_fit_agrees can_fit L cands c0 (mkk [] [] []) agrees0) as H. unfold filter_fit.
+  destruct (filter_fit_with can_fit L cands c0 (mkk [] [] [])) as [c r]. cbn [fst snd] in H.
+  apply popsize_estimate, H.
 Qed.
 
-(** as long as every count stays below 256 (no length prefix grows) the kept PopData fits: counts and bytes *)
-Definition small (r : kept) : Prop := len (k_vbk r) < 256 /\ len (k_vtb r) < 256 /\ len (k_atv r) < 256.
-
-Lemma prefix_small n : n < 256 -> prefix n = 2.
-Proof. intro H. unfold prefix, trimmed_len. apply N.ltb_lt in H. rewrite H. reflexivity. Qed.
-
-Lemma filter_fit_fits L cands : forall c r,
-  agrees c r -> fits L r = true ->
-  small (snd (filter_fit L cands c r)) ->
-  fits L (snd (filter_fit L cands c r)) = true.
+(** the length prefix never shrinks *)
+Lemma trimmed_len_mono n : trimmed_len n <= trimmed_len (n + 1).
 Proof.
-  induction cands as [|[[k size] valid] rest IH]; intros c r A F Sm; cbn [filter_fit] in *; [exact F|].
-  destruct (can_fit L c k size && valid) eqn:CF; [|apply IH; assumption].
-  apply IH; [apply agrees_step, A | | exact Sm].
-  apply andb_true_iff in CF. destruct CF as [CF _]. unfold can_fit in CF. apply andb_true_iff in CF. destruct CF as [Cn Cs].
-  (* the lists only grow, so the counts before this step are small as well *)
-  assert (small (keep r k size)) as Sk.
-  { clear - Sm. revert Sm. generalize (update c k size) (keep r k size). intros c1 r1. revert c1 r1.
-    induction rest as [|[[k' size'] valid'] rest' IH']; intros c1 r1; cbn [filter_fit snd]; [tauto|].
-    destruct (can_fit L c1 k' size' && valid').
-    - intro H. specialize (IH' _ _ H). unfold small in *. destruct k'; cbn [keep k_vbk k_vtb k_atv] in IH'; rewrite ?len_cons in IH'; lia.
-    - apply IH'. }
-  pose proof (popsize_estimate c r A) as PE.
-  destruct A as (A1 & A2 & A3 & A4 & A5 & A6).
-  unfold fits in *. apply andb_true_iff in F. destruct F as [F Fs]. apply andb_true_iff in F. destruct F as [F F3].
-  apply andb_true_iff in F. destruct F as [F1 F2].
-  apply N.leb_le in F1, F2, F3, Fs, Cs.
-  unfold small in Sk.
-  destruct k; cbn [keep k_vbk k_vtb k_atv] in *; rewrite ?len_cons in *; apply N.ltb_lt in Cn;
-    repeat (apply andb_true_iff; split); apply N.leb_le; try lia;
-    unfold est_kept, estimate in *; cbn [k_vbk k_vtb k_atv] in *; rewrite ?len_cons;
-    unfold popsize in *; rewrite A1, A2, A3, A4, A5, A6 in *;
-    cbn [sum fold_right]; unfold sum in *;
-    destruct Sk as (S1 & S2 & S3);
-    rewrite ?(prefix_small (len _ + 1)) by lia;
-    rewrite ?(prefix_small (len (k_vbk r))), ?(prefix_small (len (k_vtb r))), ?(prefix_small (len (k_atv r))) in * by lia;
-    lia.
+  unfold trimmed_len.
+  repeat (match goal with |- context [?a <? ?b] => destruct (N.ltb_spec a b) end; try lia).
+Qed.
+Lemma growth_exact n : prefix n + growth n = prefix (n + 1).
+Proof. unfold growth, prefix. pose proof (trimmed_len_mono n). lia. Qed.
+
+Lemma popsize_update c k size : popsize (update c k size) = popsize c + (size + growth (count_of c k)).
+Proof.
+  destruct k; unfold popsize; cbn [update count_of n_vbk n_vtb n_atv s_vbk s_vtb s_atv];
+    [pose proof (growth_exact (n_vbk c)) | pose proof (growth_exact (n_vtb c)) | pose proof (growth_exact (n_atv c))]; lia.
 Qed.
 
-Lemma generated_fits_lemma L cands :
-  10 <= max_size L ->
-  small (snd (filter_fit L cands c0 (mkk [] [] []))) ->
-  fits L (snd (filter_fit L cands c0 (mkk [] [] []))) = true.
+Lemma fits0 L : 10 <= max_size L -> fits L (mkk [] [] []) = true.
 Proof.
-  intros M Sm. apply filter_fit_fits; [unfold agrees; cbn; repeat split; reflexivity | | exact Sm].
-  unfold fits. cbn [k_vbk k_vtb k_atv].
+  intro M. unfold fits. cbn [k_vbk k_vtb k_atv].
   replace (est_kept {| k_vbk := []; k_vtb := []; k_atv := [] |}) with 10 by reflexivity.
   replace (len []) with 0 by reflexivity.
   rewrite !andb_true_iff. repeat split; apply N.leb_le; lia.
 Qed.
 
-(** without the bound on the counts the statement is false: the 256th payload of a kind makes the length prefix
-    one byte longer, which canFit does not account for (it prices the prefix of the CURRENT count) *)
+(** as coded now: whatever is kept passes assertPopDataFits - no bound on the counts *)
+Lemma filter_fit_fits L cands : forall c r,
+  agrees c r -> fits L r = true ->
+  fits L (snd (filter_fit L cands c r)) = true.
+Proof.
+  unfold filter_fit.
+  induction cands as [|[[k size] valid] rest IH]; intros c r A F; cbn [filter_fit_with snd]; [exact F|].
+  destruct (can_fit L c k size && valid) eqn:CF; [|apply IH; assumption].
+  apply IH; [apply agrees_step, A|].
+  apply andb_true_iff in CF. destruct CF as [CF _]. unfold can_fit in CF. apply andb_true_iff in CF. destruct CF as [Cn Cs].
+  pose proof (popsize_estimate _ _ (agrees_step c r k size A)) as PE. rewrite popsize_update in PE.
+  apply N.leb_le in Cs.
+  destruct A as (A1 & A2 & A3 & _).
+  unfold fits in *. apply andb_true_iff in F. destruct F as [F Fs]. apply andb_true_iff in F. destruct F as [F F3].
+  apply andb_true_iff in F. destruct F as [F1 F2]. apply N.leb_le in F1, F2, F3.
+  assert (est_kept (keep r k size) <=? max_size L = true) as -> by (apply N.leb_le; lia).
+  rewrite andb_true_r.
+  destruct k; cbn [count_ok] in Cn; apply N.ltb_lt in Cn; cbn [keep k_vbk k_vtb k_atv]; rewrite ?len_cons;
+    repeat (apply andb_true_iff; split); apply N.leb_le; lia.
+Qed.
+
+Lemma generated_fits_lemma L cands :
+  10 <= max_size L ->
+  fits L (snd (filter_fit L cands c0 (mkk [] [] []))) = true.
+Proof. intro M. apply filter_fit_fits; [exact agrees0 | apply fits0; exact M]. Qed.
+
+(** before the repair the statement was false: the 256th payload of a kind that fits exactly makes the length prefix
+    one byte longer, which the old canFit did not account for *)
 Definition witness_cands : list (kind * N * bool) := repeat (KAtv, 1, true) 256.
 Definition witness_limits : limits := mkl 200 200 1000 266.
 Lemma counting_prefix_refuted_lemma :
-  fits witness_limits (snd (filter_fit witness_limits witness_cands c0 (mkk [] [] []))) = false /\
-  len (k_atv (snd (filter_fit witness_limits witness_cands c0 (mkk [] [] [])))) = 256.
+  fits witness_limits (snd (filter_fit_v0 witness_limits witness_cands c0 (mkk [] [] []))) = false /\
+  len (k_atv (snd (filter_fit_v0 witness_limits witness_cands c0 (mkk [] [] [])))) = 256.
+Proof. split; vm_compute; reflexivity. Qed.
+(** the same candidates with canFit as coded now: the 256th does not fit, 255 are kept *)
+Example witness_now :
+  fits witness_limits (snd (filter_fit witness_limits witness_cands c0 (mkk [] [] []))) = true /\
+  len (k_atv (snd (filter_fit witness_limits witness_cands c0 (mkk [] [] [])))) = 255.
 Proof. split; vm_compute; reflexivity. Qed.
 
 (** ** the temporary block leaves no trace *)
@@ -113,6 +119,30 @@ Section M.
     induction ps as [|p r IH]; intros s ap; cbn [apply_all]; [reflexivity|].
     destruct (exec p s) as [s'|] eqn:E; [|apply IH].
     rewrite IH. cbn [unapply_all]. rewrite (exec_inverse _ _ _ E). reflexivity.
+  Qed.
+
+  (** every payload kept by the filter was executed on the temporary block in the final order: executing exactly
+      the kept list on the same state succeeds and reaches the same state (exec is a function) *)
+  Variable pre : P -> list P -> bool.
+  Lemma filter_apply_exec ps : forall s ap,
+    exists mid, snd (filter_apply S P exec pre ps s ap) = mid ++ ap /\
+                exec_all S P exec (rev mid) s = Some (fst (filter_apply S P exec pre ps s ap)).
+  Proof.
+    induction ps as [|p r IH]; intros s ap; cbn [filter_apply].
+    - exists []. split; reflexivity.
+    - destruct (pre p ap); [|apply IH].
+      destruct (exec p s) as [s'|] eqn:E; [|apply IH].
+      destruct (IH s' (p :: ap)) as (mid & A & B). exists (mid ++ [p]). split.
+      + rewrite A, <- app_assoc. reflexivity.
+      + rewrite rev_app_distr. cbn [rev app exec_all]. rewrite E. exact B.
+  Qed.
+
+  Lemma generated_applies_lemma s ps :
+    exec_all S P exec (generated S P add_temp exec pre s ps) (add_temp s) =
+    Some (fst (filter_apply S P exec pre ps (add_temp s) [])).
+  Proof.
+    unfold generated. destruct (filter_apply_exec ps (add_temp s) []) as (mid & A & B).
+    rewrite A, app_nil_r. exact B.
   Qed.
 
   Lemma generate_pure_lemma s ps : generate_machine S P add_temp remove_temp exec unexec s ps = s.
